@@ -3,11 +3,6 @@ import TongoProofs.Lemmas.TlbPrims
 namespace Tongo.Tlb
 open Tongo Tongo.Bits
 
-/-- the elements of a list-shaped value -/
-def Val.toList : Val → List Val
-  | .cons h t => h :: Val.toList t
-  | _ => []
-
 /-- domain of a VM stack value: every element in the domain of the element type (fuel as used by `encodeStack`) -/
 def inDomStack (env : Env) : Nat → Ty → Val → Bool
   | 0, _, _ => false
